@@ -140,7 +140,10 @@ def arr_copy(interp, a, kind=None, name="copy"):
     else:
         g = get
     # freeze: capture the current content closure of the source buffer
-    return interp.array_from_fn(g, n, kind, name)
+    r = interp.array_from_fn(g, n, kind, name)
+    if getattr(a, "nan_flag", None) is not None:
+        r.nan_flag = a.nan_flag          # validity flag travels with the values
+    return r
 
 
 def freeze(a):
@@ -409,6 +412,21 @@ def setitem(interp, obj, key, v):
                     fn = lambda j, base=base: vget(z3.simplify(j - base))
             obj.buf.store_range(z3.simplify(off + loe), z3.simplify(off + hie), fn)
             return
+        if isinstance(key, SArr) and key.kind == "int":
+            kn, kget, _ = seq_view_frozen(interp, key)
+            if not isinstance(kn, int):
+                raise OutsideSubset("array store with an index array of symbolic length")
+            if is_scalar(v):
+                vget = lambda j, e=num_expr(v): e
+            else:
+                vn, vget, _ = seq_view_frozen(interp, v)
+            ne = z3.IntVal(n) if isinstance(n, int) else n
+            for j in range(kn):
+                idx = kget(z3.IntVal(j))
+                interp.side_obligation("index in bounds", z3.And(idx >= 0, idx < ne))
+                e = vget(z3.IntVal(j))
+                obj.buf.store(z3.simplify(off + idx), to_real(e) if obj.kind == "real" else e)
+            return
         if isinstance(key, (SArr, tuple)):
             raise OutsideSubset("array store with array/tuple index")
         i = norm_index(interp, key, n)
@@ -592,6 +610,8 @@ def arr_attr(interp, a, name, default):
         return (a.length(),)
     if name == "ndim":
         return 1
+    if name in ("any", "all") and a.kind == "bool":
+        return LibMethod(lambda it, args, kw: np_all_any(name)(it, [a], kw), name)
     if name == "astype":
         def astype(it, args, kw):
             dt = args[0] if args else kw.get("dtype")
@@ -1143,6 +1163,37 @@ def np_insert(interp, args, kw):
 axiom("insert", "np.insert(a, k, v) returns a copy with v placed before index k")
 
 
+def np_prod(interp, args, kw):
+    a = args[0]
+    n, get, kind = seq_view_frozen(interp, a)
+    if not isinstance(n, int):
+        raise OutsideSubset("np.prod over an array of symbolic length")
+    r = Sym(z3.RealVal(1) if kind == "real" else z3.IntVal(1))
+    for j in range(n):
+        r = arith("*", r, Sym(get(z3.IntVal(j))))
+    return r if n else (1.0 if kind == "real" else 1)
+
+
+class NanCheck(object):
+    """Result of np.isnan(x) for an array x that carries a validity flag."""
+
+    def __init__(self, flag):
+        self.flag = flag
+
+
+def np_isnan(interp, args, kw):
+    a = args[0]
+    flag = getattr(a, "nan_flag", None)
+    if flag is not None:
+        return NanCheck(flag)
+    if isinstance(a, SArr) or is_sym(a):
+        # reals have no NaN
+        if isinstance(a, SArr):
+            return interp.array_from_fn(lambda j: z3.BoolVal(False), a.n, "bool", "isnan")
+        return False
+    return np.isnan(a)
+
+
 def np_zeros_like(val):
     def f(interp, args, kw):
         n = args[0]
@@ -1235,6 +1286,8 @@ def install(interp):
     m[np.asarray] = np_asarray
     m[np.ascontiguousarray] = np_asarray
     m[np.hstack] = np_hstack
+    m[np.prod] = np_prod
+    m[np.isnan] = np_isnan
     m[np.linspace] = np_linspace
     m[np.ones_like] = np_ones_like
     m[np.insert] = np_insert
